@@ -24,6 +24,7 @@ type c03Scenario struct {
 	Rollout  bool            `json:"has_rollout"` // service also has rollout targets (pause/stop drain both)
 	DrainTO  time.Duration   `json:"drain_timeout"`
 	Inflight []c03Inflight   `json:"inflight"`
+	Sick     bool            `json:"sick"`   // the drained targets turned unhealthy (out of rotation) while serving their in-flight requests
 	Placed   bool            `json:"placed"` // hook-placed late arrivals instead of exact-time clauses
 	CmdDelay time.Duration   `json:"cmd_hook_delay"`
 	ReqDs    []time.Duration `json:"req_delays"`
@@ -47,13 +48,17 @@ func c03Gen(rng *rand.Rand, idx int) c03Scenario {
 		}
 		return sc
 	}
+	sc.Sick = rng.IntN(5) == 0
+	if sc.Sick {
+		sc.ProbeIv = 300 * time.Millisecond
+	}
 	n := rng.IntN(7)
 	for i := 0; i < n; i++ {
-		k := pick(rng, []string{"early", "early", "late", "never", "edge-", "edge+", "edge0", "upgrade"})
+		k := pick(rng, []string{"early", "early", "early-stream", "late", "never", "edge-", "edge+", "edge0", "upgrade"})
 		f := c03Inflight{Kind: k}
 		d := sc.DrainTO
 		switch k {
-		case "early":
+		case "early", "early-stream":
 			if d < 4*Eps {
 				f.Kind, f.Fin = "late", d+time.Duration(300+rng.IntN(1000))*time.Millisecond+OffTarget
 			} else {
@@ -82,7 +87,7 @@ func (sc c03Scenario) class() string {
 	if len(ks) == 0 && !sc.Placed {
 		return ""
 	}
-	return fmt.Sprintf("%s|nt%d|ro%v|drain%v|%s|placed=%v", sc.Cmd, sc.NT, sc.Rollout, sc.DrainTO, strings.Join(ks, ","), sc.Placed)
+	return fmt.Sprintf("%s|nt%d|ro%v|drain%v|%s|placed=%v|sick=%v", sc.Cmd, sc.NT, sc.Rollout, sc.DrainTO, strings.Join(ks, ","), sc.Placed, sc.Sick)
 }
 
 // c03Span: requests held by a pause (and requests stalled between route lookup and claim) while
@@ -186,6 +191,7 @@ func c03Run(t *testing.T, run *Run, sc c03Scenario) {
 	defer w.Close()
 	to := DefTO
 	to.HealthCheckConfig.Interval = sc.ProbeIv
+	to.ResponseTimeout = 5 * time.Minute // the target timeout must not pre-empt the drain deadline
 	const svc = "svc"
 	mk := func(tag string, n int) []string {
 		var out []string
@@ -195,6 +201,12 @@ func c03Run(t *testing.T, run *Run, sc c03Scenario) {
 			out = append(out, name)
 		}
 		return out
+	}
+	sickProbe := func(n int, at time.Duration) ProbeAct {
+		if n >= 1 {
+			return ProbeAct{Status: 500}
+		}
+		return ProbeAct{Status: 200}
 	}
 	act0 := mk("a0", sc.NT)
 	if c := w.Deploy(svc, act0, DefSO, to, 5*time.Second, time.Second); c.Err != "" {
@@ -241,6 +253,14 @@ func c03Run(t *testing.T, run *Run, sc c03Scenario) {
 	}
 	// in-flight set: sent 20ms before the command so that each is open at its target when draining begins
 	lead := 20 * time.Millisecond
+	if sc.Sick {
+		// the targets that will be drained fail every probe after the first (t >= 300ms): the
+		// in-flight requests are sent before that and are still running when the command is issued
+		lead = 900 * time.Millisecond
+		for name := range drained {
+			w.Target(name).Probe = sickProbe
+		}
+	}
 	for i, f := range sc.Inflight {
 		id := fmt.Sprintf("f%d", i)
 		cookie := useCookie || (sc.Rollout && sc.Cmd != "deploy" && i%2 == 1)
@@ -254,6 +274,10 @@ func c03Run(t *testing.T, run *Run, sc c03Scenario) {
 			r.Lat = f.Fin + lead - OffArrival
 			if r.Lat <= 0 {
 				r.Lat = 1
+			}
+			if f.Kind == "early-stream" {
+				// first part of a chunked response relayed at once, the rest at the natural finish
+				r.Mode, r.Gap, r.Lat = "stream", r.Lat, 0
 			}
 		}
 		w.GoReq(tCmd-lead+OffArrival, r)
@@ -394,6 +418,10 @@ func c03Run(t *testing.T, run *Run, sc c03Scenario) {
 				}
 				run.Count("cutoffs_checked", 1)
 			default:
+				if f.Kind == "early-stream" && (string(r.Body) != "part1part2" || r.Err != "") {
+					fail("streamed-response-cut", "in-flight streamed response %s (natural finish %v < deadline %v) was cut: body %q err %q", id, fin, deadline, string(r.Body), r.Err)
+					return
+				}
 				if r.Status != 200 || !drained[r.Target] || !near(r.Done, fin) {
 					fail("early-not-completed", "request %s (natural finish %v < deadline %v) got status=%d target=%q at %v err=%q", id, fin, deadline, r.Status, r.Target, r.Done, r.Err)
 					return
@@ -411,7 +439,7 @@ func c03Run(t *testing.T, run *Run, sc c03Scenario) {
 		run.Count("placed_requests_served", n)
 	}
 	// sanity: traffic flows where it should afterwards
-	if r, ok := resps["after-resume"]; ok && sc.Cmd != "deploy" && sc.Cmd != "rollout-deploy" {
+	if r, ok := resps["after-resume"]; ok && sc.Cmd != "deploy" && sc.Cmd != "rollout-deploy" && !sc.Sick {
 		if r.Status != 200 {
 			fail("not-serving-after-resume", "request after resume got %d", r.Status)
 			return
